@@ -491,7 +491,16 @@ def distribute_batch_calls(
             common_args, task.conf.disable_cache_args
         )
         task.logger.debug(f"Pre-serialized {len(pre_serialized_args)} common arguments")
-        other_args = param_list  # type: ignore
+        # Bind every call through the task signature (defaults applied), exactly like the
+        # non-batch path, so that the same call gets the same arguments and call identity.
+        other_args = [
+            {
+                key: value
+                for key, value in task.args(**{**common_args, **params}).kwargs.items()  # type: ignore[dict-item]
+                if key not in common_args
+            }
+            for params in param_list
+        ]
     else:
         other_args = [a.kwargs for a in prepare_arguments(task, param_list)]
 
